@@ -262,6 +262,9 @@ func UnmarshalYAML(bs []byte, v interface{}) error {
 }
 
 func Unmarshal(bs []byte, v interface{}) error {
+	if len(bs) == 0 {
+		return UnknownSyntax
+	}
 	if bs[0] == '{' {
 		return json.Unmarshal(bs, v)
 	}
